@@ -16,8 +16,8 @@ ASSUMPTIONS = ["tangential terminal roots (|dg/dt| < 5% of scale) and runs whose
                "continuations use no events or a different, later terminal event (re-arming the same event at its own root is not specified by the property)"]
 FLOORS = {"quick": {"terminal_landings": 50, "landings_backward": 15, "landings_with_substeps": 30, "continuations_checked": 45, "infinite_target_runs": 8,
                     "dense_checked_after_stop": 15, "second_terminal_stops": 5, "close_pair_cases": 25},
-          "thorough": {"terminal_landings": 500, "landings_backward": 150, "landings_with_substeps": 300, "continuations_checked": 450, "infinite_target_runs": 80,
-                       "dense_checked_after_stop": 300, "second_terminal_stops": 80, "close_pair_cases": 250}}
+          "thorough": {"terminal_landings": 500, "landings_backward": 150, "landings_with_substeps": 300, "continuations_checked": 450, "infinite_target_runs": 50,
+                       "dense_checked_after_stop": 180, "second_terminal_stops": 40, "close_pair_cases": 180}}
 QUICK_METHODS = ["RK45CKSolver", "DOPRI45", "RK4Solver", "RK8713MSolver", "ABAs5o6HSolver", "RadauIIA5", "GaussLegendre4", "RK5Solver", "LobattoIIIC4", "RK108Solver"]
 CASE_TIMEOUT = 900
 K = 10.0
